@@ -11,6 +11,7 @@ import FDAProofs.Lemmas.BSpline
 import FDAProofs.Lemmas.Bases
 import FDAProofs.Lemmas.LegendreReal
 import FDAProofs.Lemmas.TrigBases
+import FDAProofs.Lemmas.TrigDiscrete
 
 namespace C18
 open FDA FDA.BSpline FDA.Bases Finset intervalIntegral
@@ -256,6 +257,27 @@ theorem fourier_orthonormal (a b : ℝ) (hab : a < b) (j k : ℕ) :
 
 example : ∫ t in (0:ℝ)..2, BasesReal.fourier 0 2 1 t * BasesReal.fourier 0 2 2 t = 0 := by
   rw [fourier_orthonormal 0 2 (by norm_num)]; simp
+
+/-- Discrete version (no quadrature error): on the uniform grid `0, 1/N, …, 1` the trapezoid rule
+(`np.trapz`) applied to `φ_j·φ_k` returns exactly `δ_jk`, for all `j + k ≤ 2N`. -/
+theorem wiener_discrete_orthonormal (N j k : ℕ) (hN : 0 < N) (hj : 1 ≤ j) (hk : 1 ≤ k) (hjk : j + k ≤ 2 * N) :
+    BasesReal.trapzU 0 1 N (fun t => BasesReal.wiener j t * BasesReal.wiener k t) = if j = k then 1 else 0 :=
+  BasesReal.wiener_discrete_orthonormal N j k hN hj hk hjk
+
+example : BasesReal.trapzU 0 1 8 (fun t => BasesReal.wiener 3 t * BasesReal.wiener 5 t) = 0 := by
+  rw [wiener_discrete_orthonormal 8 3 5 (by norm_num) (by norm_num) (by norm_num) (by norm_num)]; simp
+
+/-- Discrete version for the Fourier functions: on the uniform grid with `N` intervals spanning `[a, b]`
+(the interval spanned by the grid) the trapezoid rule applied to `f_j·f_k` returns exactly `δ_jk`
+whenever the two frequencies `⌈j/2⌉ + ⌈k/2⌉` add up to less than `N` — every interval, every `N`. -/
+theorem fourier_discrete_orthonormal (a b : ℝ) (hab : a < b) (N : ℕ) (hN : 0 < N) (j k : ℕ)
+    (hfreq : (j + 1) / 2 + (k + 1) / 2 < N) :
+    BasesReal.trapzU a b N (fun t => BasesReal.fourier a b j t * BasesReal.fourier a b k t)
+      = if j = k then 1 else 0 :=
+  BasesReal.fourier_discrete_orthonormal a b hab N hN j k hfreq
+
+example : BasesReal.trapzU 1 3 16 (fun t => BasesReal.fourier 1 3 4 t * BasesReal.fourier 1 3 4 t) = 1 := by
+  rw [fourier_discrete_orthonormal 1 3 (by norm_num) 16 (by norm_num) 4 4 (by norm_num)]; simp
 
 /-! ## Normalisation, intercept, tensor products -/
 
